@@ -650,7 +650,7 @@ def run(chk):
     for s in fixtures:
         specs.append(s)
     # edit scripts on the main fixtures
-    for name in ["test.imcnp", "test_universe.imcnp", "test_importance.imcnp", "test_universe_data.imcnp"]:
+    for name in chk.pick(["test.imcnp", "test_universe.imcnp"], ["test.imcnp", "test_universe.imcnp", "test_importance.imcnp", "test_universe_data.imcnp"]):
         if any(f["fixture"] == name for f in fixtures):
             for edits in EDIT_MENU[1:]:
                 specs.append({"fixture": name, "edits": edits})
@@ -670,7 +670,7 @@ def run(chk):
             continue
         keep_specs.append((s, r))
     ans = drv.batch([{"op": "write", "problem": r["problem"], "scenarios": []} for _, r in keep_specs])
-    budget_full = chk.pick(14, 160)
+    budget_full = chk.pick(10, 160)
     nfull = 0
     for (s, r), a in zip(keep_specs, ans):
         if "error" in a:
@@ -770,6 +770,9 @@ def run(chk):
         a, b = canon_impl(obs), model_all[i]
         if a != b:
             chk.disagreements_checked += 1
+            if chk.disagreements_checked > 25:
+                chk.count("disagreement:not-re-run")  # enough confirmed examples; the rest is only counted
+                continue
             obs2, a2, b2, _ = evaluate(drv, it, r)
             if a2 == b2:
                 chk.count("flaky:correspondence")
